@@ -63,3 +63,18 @@ Proof. repeat split; vm_compute; reflexivity. Qed.
 Example C06_nonvacuous_beyond_64_bits : let g := [[0;1;1;1];[1;0;1;1];[1;1;0;1];[1;1;1;0]] in
   lap_apply g [0;0;0;0] [2^62;0;0;0] = [-3 * 2^62; 2^62; 2^62; 2^62] /\ 2^63 < 3 * 2^62.
 Proof. split; vm_compute; reflexivity. Qed.
+
+(* the constructor CFiringScript(graph, script) as translated from /repo's CURRENT source: without a dictionary the zero script; with one it raises exactly when a key
+   is not a vertex, and otherwise the stored (sparse) dictionary represents "the given firings, 0 elsewhere" *)
+Theorem C06_source_constructor : forall n vs gg sc, rep_vset n vs -> (forall d, sc = Some d -> NoDup (d_keys d)) ->
+  match sc with
+  | None => CFiringScript___init__ vs gg sc = PyOk [] /\ rep_script n [] (tab n (fun _ => 0))
+  | Some d => match CFiringScript___init__ vs gg sc with
+              | PyOk sd => forallb (fun kv => Nat.ltb (fst kv) n) d = true /\ rep_script n sd (tab n (fun v => d_get v 0 d))
+              | PyExn _ => forallb (fun kv => Nat.ltb (fst kv) n) d = false end end.
+Proof. exact script_ctor_refines. Qed.
+Print Assumptions C06_source_constructor.
+Example C06_source_constructor_nonvacuous :
+  CFiringScript___init__ [0;1;2]%nat [] (Some [(2%nat, 5); (0%nat, -1)]) = PyOk [(2%nat, 5); (0%nat, -1)] /\
+  CFiringScript___init__ [0;1;2]%nat [] (Some [(2%nat, 5); (3%nat, -1)]) = PyExn [(2%nat, 5)] /\ CFiringScript___init__ [0;1;2]%nat [] None = PyOk [].
+Proof. vm_compute. repeat split. Qed.
